@@ -475,7 +475,10 @@ func genText(r *coqfmt.Rng, fi flagInfo) (string, bool) {
 			return fmt.Sprintf("%d.%d.%d.%d", r.Intn(256), r.Intn(256), r.Intn(256), r.Intn(256)), true
 		}
 		return coqfmt.Pick(r, []string{"", "txt", "a b", "1,2"}), true
-	case (strings.HasSuffix(vt, "StringSliceFlag") && !strings.HasSuffix(vt, "MapStringStringSliceFlag")) || vt == "p:stringSlice":
+	case strings.HasSuffix(vt, "StringSliceFlag") && !strings.HasSuffix(vt, "MapStringStringSliceFlag"):
+		bad := r.Chance(1, 8)
+		return rty.GenListText(r, func() string { e, _ := rty.GenStrElem(r, bad); return e }), true
+	case vt == "p:stringSlice": // pflag's own csv reader: plain fields only
 		return genCSV(r), true
 	case strings.Contains(vt, "IntegralSliceFlag") || strings.HasPrefix(vt, "p:*[]int") || strings.HasPrefix(vt, "p:*[]uint"):
 		n := 1 + r.Intn(3)
@@ -488,10 +491,13 @@ func genText(r *coqfmt.Rng, fi flagInfo) (string, bool) {
 		}
 		return strings.Join(ws, ","), true
 	case strings.HasSuffix(vt, "StringSetFlag") || vt == "p:*map[string]struct {}":
-		return genCSV(r), true
+		bad := r.Chance(1, 8)
+		return rty.GenListText(r, func() string { e, _ := rty.GenStrElem(r, bad); return e }), true
 	case strings.HasSuffix(vt, "MapStringStringFlag") || vt == "p:*map[string]string" ||
 		strings.HasSuffix(vt, "MapStringStringSliceFlag") || vt == "p:*map[string][]string":
-		return genKVs(r), true
+		bad := r.Chance(1, 8)
+		el := func() string { e, _ := rty.GenStrElem(r, bad); return e }
+		return rty.GenMapText(r, el, el, bad), true
 	}
 	return "", false
 }
